@@ -27,8 +27,8 @@ const TYPES: [&str; 5] = ["xhr", "document", "subdocument", "image", "script"];
 const SOURCES: [&str; 2] = ["https://x.com/", "https://y.com/"];
 const BASE: &str = "https://x.com/p";
 
-fn rule_sets() -> Vec<Vec<&'static str>> {
-    vh::util::subsets_of(&POOL).into_iter().filter(|s| s.len() <= 3).collect()
+fn rule_sets(max: usize) -> Vec<Vec<&'static str>> {
+    vh::util::subsets_of(&POOL).into_iter().filter(|s| s.len() <= max).collect()
 }
 
 struct Subject {
@@ -112,7 +112,8 @@ fn replay(case: &Value, l: &mut Local) {
 
 fn check(ctx: &Ctx) -> i32 {
     let n: u32 = ctx.tier.pick(6, 8);
-    let sets = rule_sets();
+    let max_rules: usize = ctx.tier.pick(2, 3);
+    let sets = rule_sets(max_rules);
     ctx.bound("suffix_max_len", n);
     ctx.bound("suffix_alphabet", json!(SIGMA));
     ctx.bound("rule_sets", sets.len());
@@ -124,7 +125,7 @@ fn check(ctx: &Ctx) -> i32 {
         SUBJECTS.with(|cell| {
             let mut b = cell.borrow_mut();
             if b.is_none() {
-                let v: Vec<Subject> = rule_sets().iter().map(|t| build(t)).collect();
+                let v: Vec<Subject> = rule_sets(max_rules).iter().map(|t| build(t)).collect();
                 l.states += v.len() as u64;
                 *b = Some(v);
             }
@@ -143,7 +144,7 @@ fn check(ctx: &Ctx) -> i32 {
     });
     ctx.finish(
         "model_checking",
-        "URL = https://x.com/p + every string of length <= n over {?,#,&,=,a,b,é}; x every subset of <= 3 rules of the 6-rule pool (engines built once per worker thread) x 5 request types x 2 initiators; non-trivial = the engine reported a rewritten URL; states = engines built, transitions = requests checked, every one compared byte for byte with the reference",
+        "URL = https://x.com/p + every string of length <= n over {?,#,&,=,a,b,é}; x every subset of <= 2 (quick) / <= 3 (thorough) rules of the 7-rule pool (engines built once per worker thread) x 5 request types x 2 initiators; non-trivial = the engine reported a rewritten URL; states = engines built, transitions = requests checked, every one compared byte for byte with the reference",
         &["per-rule applicability is taken from the real public matcher (differential), the rewrite itself from the independent reference"],
     )
 }
